@@ -92,8 +92,60 @@ class ModelTable:
             return norm_path(callee['trait']) + '::' + callee['method']
         return strip_generics(norm_path(callee['path']))
 
+    def apply_aux(self, st, fr, callee, args, term, key):
+        """An external function applied to auxiliary data (sa/layout.py), or None.  Its result is auxiliary; it can write
+        only through the references it was given, which must all point into auxiliary data.  A callable argument of an
+        Option / Result combinator on auxiliary data may or may not be run (once, on auxiliary arguments): both are
+        explored, and join again when the callable touches nothing but auxiliary data."""
+        sx = self.sx
+        if not sx.aux_fields or not args or not any(sx.aux_arg(st, a) for a in args) or term.get('target') is None:
+            return None
+        def is_ref(a):
+            return a[0] == 'ref' or (a[0] == 'op' and a[1] == 'ref')
+
+        def is_callable(a):
+            while a[0] == 'ref':
+                try:
+                    a = sx.read_cell(st, a[1], a[2])
+                except Exception:
+                    return False
+            return a[0] in ('closure', 'fn')
+        calls = [a for a in args if is_callable(a)]
+        if not all(sx.aux_arg(st, a) for a in args if is_ref(a) and not is_callable(a)):
+            return None
+        if not calls:
+            return [(st, T.AUX)]
+        if len(calls) != 1 or not sx.aux_arg(st, args[0]) or not (key.startswith('core::option::Option') or key.startswith('core::result::Result')):
+            return None
+        clo = calls[0]
+        cv = clo
+        while cv[0] == 'ref':
+            cv = sx.read_cell(st, cv[1], cv[2])
+        if cv[0] == 'closure':
+            body = sx.facts.bodies.get(cv[1])
+            nparams = (body['arg_count'] - 1) if body else 1
+        else:
+            nparams = 1
+        dest = sx.resolve_place(st, fr, term['dest'])
+        target = term['target']
+        s_skip = st.copy()
+        out = [(s_skip, T.AUX)]
+
+        def then(sx_, s2, v):
+            sx_.write_cell(s2, dest[0], dest[1], T.AUX)
+            return [sx_.goto(s2, s2.frames[-1], target)]
+        tmp = sx.new_heap(None, None)
+        r = sx.call_closure_value(st, fr, clo, ('tuple', tuple(T.AUX for _ in range(nparams))), (tmp, ()), ('then', then))
+        if r is None:
+            return None
+        out.extend((s2, None) for s2 in r)
+        return out
+
     def apply(self, st, fr, callee, args, dest_ty, term):
         key = self.key(callee)
+        r_aux = self.apply_aux(st, fr, callee, args, term, key)
+        if r_aux is not None:
+            return r_aux
         fn = MODELS.get(key)
         if fn is None:
             for prefix, f in PREFIX_MODELS:
